@@ -176,14 +176,18 @@ def r6_index_agreement(ctx):
     facts = ctx.facts
     # Piece::from_usize inverse of discriminant
     name = 'chess::board::piece::Piece::from_usize'
-    outs = Engine(facts, fold_only=()).run(name)
+    # evaluated argument by argument (any spelling: match, lookup table, ...): from_usize(k) for k = 0..6
     ctx.touch(name)
     table = {}
-    for o in outs:
-        if o.kind == 'return' and o.value[0] == 'agg':
-            k = dict(o.conds).get(('p', 1))
-            if isinstance(k, int):
-                table[k] = o.value[3]
+    for k in range(7):
+        outs = Engine(facts, fold_only=()).run(name, args=[C(k)])
+        rets = [o for o in outs if o.kind == 'return']
+        if len(rets) == 1 and len([o for o in outs if o.kind != 'abort']) == 1 and rets[0].value[0] == 'agg':
+            table[k] = rets[0].value[3]
+        elif not rets and outs and all(o.kind == 'abort' for o in outs):
+            pass        # panics: not a piece index
+        else:
+            table[k] = '?'
     want = {v['discr']: v['name'] for v in facts.adts[PIECE_ADT]['variants']}
     for k in sorted(set(want) | set(table)):
         ctx.ob(rule, name, 'from_usize(%d) = %s' % (k, table.get(k)), table.get(k) == want.get(k), found=table.get(k), expected=want.get(k),
